@@ -386,6 +386,41 @@ def driveC10 (args : List String) : String :=
     s!"user=[{",".intercalate vis}] in={inn} out={out} peer={peer} sts={sts} dl={dl}"
   | _ => "bad-op"
 
+def adapterOf (s : String) : Option Cloner.Adapter :=
+  if s == "proto" then some .proto else if s == "codec" then some .codec
+  else if s == "clonefunc" then some .cloneFunc else if s == "copyfunc" then some .copyFunc else none
+
+/-- `src=1g` / `dst=2d`: message type digit and representation letter -/
+def msgOf (a : String) (key : String) (val : Nat) (mem : List Nat) : Cloner.Msg :=
+  let v := argVal a key
+  let t := (v.take 1).toString.toNat?.getD 0
+  { typ := t, dyn := (v.drop 1).toString == "d", val := val, mem := mem }
+
+def showR {α : Type} : Cloner.R α → String
+  | .ok _ => "ok" | .error => "error" | .panic => "panic"
+
+def driveC18 (args : List String) : String :=
+  match args with
+  | [ad, "clone", src] => match adapterOf ad with
+    | some a => showR (a.clone 100 (msgOf src "src" 7 [1]))
+    | none => "bad-op"
+  | [ad, "copy", src, dst] => match adapterOf ad with
+    | some a => showR (a.copy 100 (msgOf dst "dst" 9 [2]) (msgOf src "src" 7 [1]))
+    | none => "bad-op"
+  | [ad, "copy", src, dst, wire] => match adapterOf ad with
+    | some a => showR (a.copy 100 { msgOf dst "dst" 9 [2] with acceptsWire := argVal wire "wire" == "1" } (msgOf src "src" 7 [1]))
+    | none => "bad-op"
+  | [ad, "nonproto"] => match adapterOf ad with
+    | some a =>
+      let np : Cloner.Msg := { typ := 0, dyn := false, val := 1, mem := [1] }
+      match a.clone 100 np, a.copy 100 { np with val := 0, mem := [2] } np with
+      | .error, .error => "error"
+      | .panic, _ => "panic"
+      | _, .panic => "panic"
+      | _, _ => "ok"
+    | none => "bad-op"
+  | _ => "bad-op"
+
 def dispatch (line : String) : String :=
   match (line.splitOn " ").filter (· ≠ "") with
   | "C14" :: rest => driveC14 rest
@@ -399,6 +434,7 @@ def dispatch (line : String) : String :=
   | "C16" :: rest => driveC16 rest
   | "C19" :: rest => driveC19 rest
   | "C10" :: rest => driveC10 rest
+  | "C18" :: rest => driveC18 rest
   | _ => "bad-op"
 
 partial def loop (h : IO.FS.Stream) (out : IO.FS.Stream) : IO Unit := do
